@@ -672,3 +672,65 @@ def sg7(P, C):
              "the outer loop is bounded by the constant %s: with more coefficients to release than that, one per iteration, the solver stops before the "
              "optimum and returns as if it had converged (its siblings use 3*nvar)" % (f.render(consts[0][2]) if consts else "?"))
     return n
+
+
+def sg8(P, C):
+    """SG-8: the sentinel of Lawson-Hanson's step-length search lies above every candidate."""
+    C.rule("SG-8", "nnls_lawson_hanson finds the blocking coefficient as the minimum of q = x/(x - p) over the passive coefficients with p <= 0 "
+           "(those with p > 0 are skipped), so 0 <= q <= 1, by a strict comparison q < alpha starting from a constant: that constant has to be "
+           "greater than 1. With 1 itself a candidate whose ratio is exactly 1 (a positive coefficient whose passive-set solution is 0: a "
+           "degenerate optimum) is never admitted, no coefficient is selected and the solver ends the process ('Math has failed', exit(1))", floor=1)
+    f = P.one("nnls_lawson_hanson", file_endswith="nnls.c")
+    found = []
+    for i in f.walk():
+        if f.k(i) != "IfStmt":
+            continue
+        conn, leaves = core.cond_leaves(f, f.nodes[i]["cond"])
+        for lf in leaves:
+            c, neg = core.cond_polarity(f, lf)
+            n = f.nodes[c]
+            if neg or n["k"] != "BinaryOperator" or n.get("op") not in ("<", "<="):
+                continue
+            a, b = f.strip(n["ch"][0]), f.strip(n["ch"][1])
+            if f.k(a) != "DeclRefExpr" or f.k(b) != "DeclRefExpr":
+                continue
+            aid, bid = f.nodes[a]["decl"]["id"], f.nodes[b]["decl"]["id"]
+            # the then-branch records the new minimum: b = a
+            rec = [x for x in f.walk(f.nodes[i]["then"]) if ts.assign_parts(f, x) and ts.assign_parts(f, x)[1] is not None and
+                   f.k(f.strip(ts.assign_parts(f, x)[0])) == "DeclRefExpr" and f.nodes[f.strip(ts.assign_parts(f, x)[0])]["decl"]["id"] == bid and
+                   f.k(f.strip(ts.assign_parts(f, x)[1])) == "DeclRefExpr" and f.nodes[f.strip(ts.assign_parts(f, x)[1])]["decl"]["id"] == aid]
+            if rec:
+                found.append((i, aid, bid, n["op"]))
+    if len(found) != 1:
+        raise core.AnalysisBroken("SG-8: the minimum search of nnls_lawson_hanson (if (q < alpha) alpha = q) was not found (%d candidates)" % len(found))
+    i, aid, bid, op = found[0]
+    L = next((a for a in f.ancestors(i) if f.k(a) in ("ForStmt", "WhileStmt")), None)
+    # the candidate is x/(x - p) and entries with p > 0 are skipped
+    qdef = [ts.assign_parts(f, x)[1] for x in f.walk(L) if ts.assign_parts(f, x) and ts.assign_parts(f, x)[1] is not None and
+            f.k(f.strip(ts.assign_parts(f, x)[0])) == "DeclRefExpr" and f.nodes[f.strip(ts.assign_parts(f, x)[0])]["decl"]["id"] == aid]
+    ratio = False
+    if len(qdef) == 1:
+        q = f.strip(qdef[0])
+        if f.k(q) == "BinaryOperator" and f.nodes[q]["op"] == "/":
+            num, den = f.strip(f.nodes[q]["ch"][0]), f.strip(f.nodes[q]["ch"][1])
+            if f.k(den) == "BinaryOperator" and f.nodes[den]["op"] == "-" and f.render(f.nodes[den]["ch"][0]).replace(" ", "") == f.render(num).replace(" ", ""):
+                ptxt = f.render(f.nodes[den]["ch"][1]).replace(" ", "")
+                skips = [x for x in f.walk(L) if f.k(x) == "IfStmt" and any(f.k(y) == "ContinueStmt" for y in f.walk(f.nodes[x]["then"])) and
+                         ("(0<%s)" % ptxt) in f.render(f.nodes[x]["cond"]).replace(" ", "")]
+                ratio = bool(skips)
+    C.ob("SG-8", "nnls_lawson_hanson", "candidates-bounded-by-one", ratio, f.loc(i),
+         "the candidate is x/(x - p) and entries with p > 0 are skipped: 0 <= q <= 1" if ratio else
+         "the candidate of the minimum search is no longer recognisably x/(x - p) with p <= 0: the bound 1 on it is not established")
+    # the sentinel: last constant assigned to the minimum before the loop
+    sent = [x for x in f.walk() if ts.assign_parts(f, x) and ts.assign_parts(f, x)[1] is not None and f.k(f.strip(ts.assign_parts(f, x)[0])) == "DeclRefExpr" and
+            f.nodes[f.strip(ts.assign_parts(f, x)[0])]["decl"]["id"] == bid and x not in set(f.walk(L)) and f.seq(x) < f.seq(L)]
+    sent = sorted(sent, key=f.seq)
+    val = None
+    if sent:
+        sv = f.nodes[f.strip(ts.assign_parts(f, sent[-1])[1])]
+        val = sv.get("cv", sv.get("v"))
+    ok = val is not None and ((op == "<" and float(val) > 1.0) or (op == "<=" and float(val) >= 1.0))
+    C.ob("SG-8", "nnls_lawson_hanson", "sentinel-above-every-candidate", ok, f.loc(sent[-1]) if sent else f.loc(i),
+         "search starts from %s with `%s`" % (val, op) if ok else
+         "the search starts from %s and admits a candidate only if it is %s that: a ratio of exactly 1 is never selected, the solver finds no blocking "
+         "coefficient and calls exit(1)" % (val, "strictly below" if op == "<" else "at most"))
